@@ -203,13 +203,14 @@ def rule_coherence(ctx):
     for kind, gone in (("DROP SCHEMA", "schema"), ("DROP DATABASE", "database"), ("DROP SCHEMA current", "schema"), ("DROP DATABASE current", "database"),
                        ("DROP TABLE", "table"), ("DROP VIEW", "view"), ("DROP TABLE named like the current schema", "table"),
                        ("DROP VIEW named like the current database", "view"), ("DROP SCHEMA named like the current database", "schema"),
-                       ("DROP SCHEMA of the same name in another database", "schema")):
+                       ("DROP SCHEMA of the same name in another database", "schema"),
+                       ("DROP SCHEMA IF EXISTS current", "schema"), ("DROP SCHEMA IF EXISTS of the same name in another database", "schema")):
         for tr in traces(prog, kind):
             if tr.path.outcome != "return":
                 continue
             n += 1
             c = tr.conn.attrs
-            cur_dropped = kind.endswith("current")
+            cur_dropped = kind.endswith("current")  # (the IF EXISTS spelling included)
             if not cur_dropped:
                 ok = not [x for x, _, _ in tr.stores("conn") if x in CTX_ATTRS]
                 ctx.ob("C03.c", f"{kind} of another object leaves the context alone", ok, "fakesnow/cursor.py")
